@@ -22,7 +22,7 @@ import re
 import time
 
 from harness.lib import cfg, common, lr1dump
-from harness.translate import lr1_examples
+from harness.translate import lr1_examples, lr1_emboss_runs
 
 PROP = "C09"
 
@@ -302,7 +302,7 @@ def check_kind(chk, tier, kind, stats, model_ok, lines, checks):
     aut_f, _ = lr1dump.dump_automaton(fresh, fslot, False, sym, code)
     aut_c, _ = lr1dump.dump_automaton(cached, cslot, True, sym, code)
     path = os.path.join(common.scratch(), "c09-%s.ops" % kind)
-    extra_ops, mark_line = [], None
+    extra_ops, mark_line, unmarked = [], None, None
     if kind == "module":
         # ---- Parser.mark_error: (1) spec on the real code: every example of error_examples fails
         # in the fresh parser at its marked token with its own message; (2) the Lean model of the
@@ -338,6 +338,17 @@ def check_kind(chk, tier, kind, stats, model_ok, lines, checks):
                            "RULES ir " + lr1dump.rules_text(user, sym),
                            "RULES doc " + lr1dump.rules_text(doc, sym),
                            "RULES %s %s" % (cslot, lr1dump.rules_text(cached_user, sym))]) + "\n")
+    # level B on the Emboss grammar itself: the Lean generator model `gen` (C08_gen_valid: its
+    # conflict-free outputs validate, for every grammar) must produce exactly the item sets, state
+    # numbering and ACTION / GOTO tables of the real Grammar(...).parser() (before mark_error)
+    if unmarked is None:
+        unmarked = lr1.Grammar(start, list(user)).parser()
+    gsym = lr1dump.ordered_interner([start, lr1.START_PRIME, lr1.END_OF_INPUT] +
+                                    [x for p in user for x in (p.lhs,) + tuple(p.rhs)])
+    if len(set(user)) == len(user):
+        lines.append(lr1dump.gen_line(start, list(user), gsym))
+        checks.append((len(lines) - 1, "gen", (kind, lr1dump.gen_expected(unmarked, all_prods, gsym))))
+        chk.count()
     base = len(lines)
     lines += ["LOADF " + path, "BISIM %s %s" % (cslot, fslot), "LRVALID " + fslot,
               "SAMERULES ir doc", "SAMERULES ir " + cslot, "LRTERM " + cslot]
@@ -431,6 +442,7 @@ def run(tier):
                        "complete) + token streams; non-trivial = distinct (grammar, outcome kind, length) and "
                        "distinct error messages reached")
     lr1_examples.regenerate()
+    lr1_emboss_runs.regenerate()   # `run` equations on the shipped Emboss rows vs the real Parser.parse
     model_ok = common.proof_gate(chk, search)
     stats = {}
     lines, checks = [], []
@@ -465,6 +477,19 @@ def run(tier):
                         "which": payload, "model": ans,
                         "theorem_or_correspondence": "LRVALID of the freshly generated Emboss tables (C08 validator)",
                         "expected": "valid"}, found_input=False)
+            elif what == "gen":
+                kind_g, expected = payload
+                same = ans == expected
+                stats["gen_equal_" + kind_g] = same
+                stats["gen_states_" + kind_g] = expected.split(" ")[2] if expected.startswith("gen ") else "?"
+                if not same:
+                    dis += 1
+                    k = next((i for i, (a, b) in enumerate(zip(ans, expected)) if a != b), min(len(ans), len(expected)))
+                    chk.violation("correspondence", {
+                        "which": kind_g, "model": ans[max(0, k - 150):k + 150], "observed": expected[max(0, k - 150):k + 150],
+                        "theorem_or_correspondence": "GEN (Lean model of Grammar.parser(), level B, C08_gen_valid) vs the real "
+                                                     "item sets / tables of the Emboss %s grammar before mark_error" % kind_g,
+                        "expected": "identical item sets, state numbering, conflict flag and tables"}, found_input=False)
             elif what in ("markall", "markbisim"):
                 # model of mark_error (Model/Merr.lean, C09_mark_error_deterministic) vs the real loop
                 stats[what] = ans
